@@ -783,6 +783,15 @@ def gen_dop853_module():
 RADAU_DIGITS = 30
 
 
+RADAU_PN = [60, 24, 3]             # numerator of the stability function, times 60
+RADAU_QN = [60, -36, 9, -1]        # denominator, times 60
+
+
+def radau_stability(z):
+    """R(z) = (1 + 2z/5 + z^2/20) / (1 - 3z/5 + 3z^2/20 - z^3/60), exactly."""
+    return sum(F(c) * z ** k for k, c in enumerate(RADAU_PN)) / sum(F(c) * z ** k for k, c in enumerate(RADAU_QN))
+
+
 def radau_nodes():
     """(c1, c2, c3) of Radau IIA(5): c1 < c2 roots of 10 c^2 - 8 c + 1 = 0, i.e. (4 -+ sqrt 6)/10, c3 = 1.
     c1, c2 as rationals LO/10^30 with LO = floor(c 10^30): within 1e-30 of the irrational node (the bracket is proved by Apalache)."""
@@ -817,6 +826,21 @@ def gen_radau_module():
         ("vieta_prod", "Abs(10 * C1_LO * C2_LO - SC * SC) <= 20 * SC", "c1 c2 = 1/10 within the bracket width"),
     ]:
         em.ob("Ob_C02_RADAU_" + name, expr, "C02", "pos", desc)
+    # stability function R = Pn / Qn (both over 60): the (2,3) Pade approximant of exp, i.e. Qn(z) exp(z) - Pn(z) = O(z^6)
+    em.lines.append("")
+    em.comment("R(z) = (60 + 24 z + 3 z^2) / (60 - 36 z + 9 z^2 - z^3): coefficient of z^k in Qn(z) exp(z), times 720, is sum_i qn_i 720/(k-i)!")
+    for k, v in enumerate(RADAU_PN):
+        em.define("pn_%d" % k, _lit(v))
+    for k, v in enumerate(RADAU_QN):
+        em.define("qn_%d" % k, _lit(v))
+    fact = [1, 1, 2, 6, 24, 120, 720]
+    for k in range(0, 7):
+        lhs = " + ".join("qn_%d * %d" % (i, 720 // fact[k - i]) for i in range(0, min(3, k) + 1))
+        rhs = "720 * pn_%d" % k if k < len(RADAU_PN) else "0"
+        if k <= 5:
+            em.ob("Ob_C02_RADAU_pade_%d" % k, "%s = %s" % (lhs, rhs), "C02", "pos", "R is the (2,3) Pade approximant of exp: the z^%d coefficients of Q(z) exp(z) and P(z) agree" % k)
+        else:
+            em.ob("Neg_C02_RADAU_pade_6", "%s # %s" % (lhs, rhs), "C02", "neg", "R is not a better approximant: the z^6 coefficients differ (order exactly 5)")
     em.canary("Canary_C02_RADAU", "P(C2_LO + 36000 * 1000000000000000000000) < 0", "C02",
               "a node mistyped in the 5th digit (0.644984... for 0.644948...) is NOT inside the bracket")
     return em
